@@ -107,4 +107,59 @@ pub fn run(s: &mut Session, ctx: &Ctx) {
         }
         ops::from_space(s, kind, x, y, z, a, true);
     }
+
+    // ---- HSL far outside its ranges, against the statement itself: the hexcone inverse evaluated on the
+    // coordinates as given, then each sRGB channel clamped to [0,1] and rounded (no model involved) ----
+    let n_hsl = if ctx.thorough { 400_000 } else { 20_000 };
+    for i in 0..n_hsl {
+        let h = if rng.below(4) == 0 { rng.range(-1e6, 1e6) } else { rng.range(-720.0, 720.0) };
+        let out = |rng: &mut Rng| if rng.bool() { rng.range(1.0 + 1e-9, 3.0) } else { rng.range(-3.0, -1e-9) };
+        let unit = |rng: &mut Rng| match rng.below(6) { 0 => 0.0, 1 => 1.0, _ => rng.unit() };
+        // even cases: saturation outside [0,1] (lightness anywhere); odd cases: saturation inside, lightness outside
+        let (sat, light, clause) = if i % 2 == 0 {
+            (out(&mut rng), if rng.bool() { unit(&mut rng) } else { rng.range(-0.5, 1.5) }, "hsl-saturation-outside-0-1-is-transform-then-clamp")
+        } else {
+            (unit(&mut rng), out(&mut rng), "hsl-lightness-outside-0-1-is-transform-then-clamp")
+        };
+        let want = hexcone_then_clamp(h, sat, light);
+        let want = match want {
+            Some(w) => w,
+            None => continue, // a channel within 1e-9 of a rounding tie
+        };
+        let got = match ops::guard(|| pastel::Color::from_hsla(h, sat, light, 1.0).to_rgba()) {
+            Some(q) => [q.r, q.g, q.b],
+            None => {
+                s.fail("no-panic", "Color::from_hsla", format!("from_hsla({:?}, {:?}, {:?})", h, sat, light), "panic".into());
+                continue;
+            }
+        };
+        s.check(got == want, clause, "Color::from_hsla", || format!("from_hsla({:?}, {:?}, {:?}, 1.0)", h, sat, light), || format!("{:?}, the hexcone inverse followed by channel clamping gives {:?}", got, want));
+    }
+}
+
+/// The hexcone HSL inverse on the coordinates as given (no clamping of s or l), followed by clamping each
+/// channel to [0,1] and rounding to 8 bits. `None` when a channel is within 1e-9 of a rounding tie.
+fn hexcone_then_clamp(h: f64, s: f64, l: f64) -> Option<[u8; 3]> {
+    let h = h.rem_euclid(360.0);
+    let c = (1.0 - (2.0 * l - 1.0).abs()) * s;
+    let hp = h / 60.0;
+    let x = c * (1.0 - (hp.rem_euclid(2.0) - 1.0).abs());
+    let (r, g, b) = match hp.floor() as i64 {
+        0 => (c, x, 0.0),
+        1 => (x, c, 0.0),
+        2 => (0.0, c, x),
+        3 => (0.0, x, c),
+        4 => (x, 0.0, c),
+        _ => (c, 0.0, x),
+    };
+    let m = l - c / 2.0;
+    let mut out = [0u8; 3];
+    for (i, v) in [r + m, g + m, b + m].iter().enumerate() {
+        let t = v.max(0.0).min(1.0) * 255.0;
+        if ((t - t.floor()) - 0.5).abs() < 1e-9 {
+            return None;
+        }
+        out[i] = t.round() as u8;
+    }
+    Some(out)
 }
